@@ -110,6 +110,11 @@ def check_seed(seed, msg, rec, lib, rng):
         ("other-seed-public", C.PublicKey.is_equivalent_to(pub2, C.PublicKey.from_bytes(C.PublicKey.to_bytes(opub))), False),
         ("private-vs-public", C.PrivateKey.is_equivalent_to(priv, pub2), False),
         ("public-vs-private", C.PublicKey.is_equivalent_to(pub2, priv), False),
+        # a public key object whose 32 raw bytes happen to equal the private seed is still another key
+        ("private-vs-public-same-raw-bytes", C.PrivateKey.is_equivalent_to(priv, C.PublicKey.from_bytes(seed)), False),
+        ("public-same-raw-bytes-vs-private", C.PublicKey.is_equivalent_to(C.PublicKey.from_bytes(seed), priv), False),
+        ("private-vs-public-same-raw-bytes[via PublicKey]", C.PublicKey.is_equivalent_to(priv, C.PublicKey.from_bytes(seed)), False),
+        ("private-from-pubbytes-vs-public", C.PrivateKey.is_equivalent_to(C.PrivateKey.from_bytes(ref_pub), pub2), False),
     ]
     for name, got, want in laws:
         rec.count("equivalence_checks")
